@@ -80,8 +80,10 @@ for line in sys.stdin:
                     out.append("x=" + bytes(r.read_bytearray(int(arg))).hex())
                 elif op == "xv":
                     out.append("x=" + bytes(r.read_view(int(arg))).hex())
-        except (EOFError, BufferError):
+        except EOFError:
             out.append("EOS")
+        except BufferError:
+            out.append("BUFERR")
         except Exception as e:  # noqa
             out.append("ERR:" + type(e).__name__)
         print(" ".join(out), flush=True)
